@@ -150,6 +150,10 @@ def gen_rulebook(ch, vendor, rev, exit_word, unique_heads=False, allow=None):
                             sp.children.append(RuleSpec(uid(), c.lit, nkeys=(c.nkeys + 1) % 3))
                         sp.children.append(RuleSpec(uid(), "spec%d" % sp.uid, nkeys=ch.draw(2, "overlap-nk")))
                         rules.append(sp)
+                    elif "logic" in allow and r.logic is None and not ordd and not under_ordered and ch.draw(8, "bignore") == 0:
+                        # ignore_changes on a block line: the line itself is only ever added or removed (its key is the
+                        # whole line), so the block is entered and its children are patched as usual
+                        r.logic = "ignore_changes"
             else:
                 nk = ch.pick([0, 1, 1, 2], "lkeys")
                 tail = ("tail" in allow) and ch.draw(5, "tail") == 0
@@ -435,7 +439,7 @@ def expected_after(old, new, rb, rules=None):
 
 def convergent(rb):
     """true when a second diff after a deploy must be empty (no permanent / ignore_changes rule)"""
-    return not any(r.logic in ("permanent", "ignore_changes") for r in rb.all)
+    return not any(r.logic == "permanent" or (r.logic == "ignore_changes" and not r.block) for r in rb.all)
 
 
 # ----------------------------------------------------------------------------- session tables
